@@ -302,21 +302,22 @@ theorem snapshot_stable (st : St) (h : Inv st) (steps : List Step) :
     reset: taking it changes neither the heap nor the roots -/
 theorem freeze_is_transparent (st : St) : (freeze st).heap = st.heap ∧ (freeze st).roots = st.roots := ⟨rfl, rfl⟩
 
-/-- **tie to the Go sources** (regenerated on every run): the only in-place write of a child slot is `updateEdge`; it is
-    called on `pp` inside copyOnWriteSearch and on `result.p` / `result.pp` / `result.ppp` in insert / update / remove —
-    exactly the targets `allowed` permits; the only other assignments to node fields initialise nodes that the same
-    function has just built (`n.key`, `parent.key`, `nr[i].…`); only clones and freshly built root nodes are ever added
-    to the writable cache; snapshot, clone and commit reset it. A new write site anywhere breaks this theorem. -/
+/-- **tie to the Go sources** (regenerated on every run). Every write site of tree.go / node.go / txn.go / iter.go and of
+    `newTree` is recorded by the *origin* of the node written to - followed through local variables and through the
+    parameters of helper functions to their call sites, so that the names of functions and variables do not matter:
+    the only in-place write of a child slot is `updateEdge` (assigning `children[id]` of its receiver); outside the
+    copy-on-write search (modelled statement by statement: `cow`, where it is called on `pp` with the clone `cp`) it is
+    called only on the nodes of the cloned search path (`result.p` / `.pp` / `.ppp` of copyOnWriteSearch) - exactly the
+    targets `allowed` permits - and links in only nodes built in the same transaction; every other assignment to a node
+    field initialises a node that was just built (`newNode`, `newNodeFromRef`, `new(node)`); only the clones of the
+    search and freshly built nodes are added to the writable cache; snapshot, clone and commit reset it. A write site
+    of any other origin anywhere (a node of the published tree, `result.matched`, an unknown expression) breaks this
+    theorem. -/
 theorem writes_tie :
-    Generated.updateEdgeCalls.eraseDups =
-      ["tXn.copyOnWriteSearch|pp", "tXn.insert|result.p", "tXn.remove|result.p", "tXn.remove|result.pp",
-       "tXn.remove|result.ppp", "tXn.update|result.p"] ∧
-    Generated.nodeFieldAssigns.eraseDups =
-      ["Router.newTree|nr[i].key", "Router.newTree|nr[i].paramChildIndex", "Router.newTree|nr[i].wildcardChildIndex",
-       "node.updateEdge|n.children[id]", "tXn.insert|n.key", "tXn.remove|parent.key", "tXn.truncate|nr[i].key",
-       "tXn.truncate|nr[i].paramChildIndex", "tXn.truncate|nr[i].wildcardChildIndex", "tXn.truncate|nr[idx].key",
-       "tXn.truncate|nr[idx].paramChildIndex", "tXn.truncate|nr[idx].wildcardChildIndex"] ∧
-    Generated.writableAdds.eraseDups = ["tXn.copyOnWriteSearch|cp", "tXn.insert|n", "tXn.remove|parent"] ∧
+    Generated.updateEdgeReceivers = ["cow|pp", "searched.p", "searched.pp", "searched.ppp"] ∧
+    Generated.updateEdgeArgs = ["built", "cow|cp"] ∧
+    Generated.nodeFieldAssigns = ["built.key", "built.paramChildIndex", "built.wildcardChildIndex", "updateEdge-receiver.children[]"] ∧
+    Generated.writableAdds = ["built", "cow|cp"] ∧
     Generated.writableResets = ["tXn.clone", "tXn.commit", "tXn.snapshot"] := by
   decide
 
